@@ -244,4 +244,6 @@ def run_cases(cases, nproc=14, case_timeout=25.0, total_timeout=900.0):
         pending = [i for i in pending if i not in results]
         if not killed:
             break
+        if sum(1 for r in results.values() if r[0] == "timeout") >= 3:
+            break   # enough hangs to report; do not spend the budget on more
     return results
